@@ -2,6 +2,7 @@ import SFV.Lemmas.GatherMore
 import SFV.Lemmas.GatherTerm
 import SFV.Lemmas.GatherNested
 import SFV.Lemmas.ScatterRun
+import SFV.Lemmas.StepBase
 /-! # C01 — scatter then gather returns the original list in its original order
 
 Property theorems only; the development is in `SFV/Lemmas/Gather*.lean`, the model in `SFV/Model/Gather.lean`.
